@@ -95,7 +95,7 @@ PROPS = {
 }
 
 
-ENGINE_PINS = ["PinChecks/PcBody_enf.v", "PinChecks/PcEnforceGen.v", "PinChecks/PcEnforcerGen.v", "PinChecks/PcBody_model.v", "PinChecks/PcStoreGen.v", "PinChecks/PcLinksGen.v", "PinChecks/PcInternalGen.v", "PinChecks/PcBody_adapters.v", "PinChecks/PcAdaptersGen.v", "PinChecks/PcBody_fmgmtapi.v", "PinChecks/PcApiGen.v", "PinChecks/PcBody_frbacapi.v", "PinChecks/PcRoleGraph.v", "PinChecks/PcRoleManagerGen.v", "PinChecks/PcLiterals.v", "PinChecks/PcBody_fmacros.v"]
+ENGINE_PINS = ["PinChecks/PcBody_enf.v", "PinChecks/PcEnforceGen.v", "PinChecks/PcEnforcerGen.v", "PinChecks/PcBody_model.v", "PinChecks/PcStoreGen.v", "PinChecks/PcLinksGen.v", "PinChecks/PcInternalGen.v", "PinChecks/PcBody_adapters.v", "PinChecks/PcAdaptersGen.v", "PinChecks/PcBody_fmgmtapi.v", "PinChecks/PcApiGen.v", "PinChecks/PcQueryGen.v", "PinChecks/PcBody_frbacapi.v", "PinChecks/PcRoleGraph.v", "PinChecks/PcRoleManagerGen.v", "PinChecks/PcLiterals.v", "PinChecks/PcBody_fmacros.v"]
 ENGINE_NOTE = ("trusted: Coq kernel, extraction, harness; modelled not verified: hashlink LinkedHashSet/LinkedHashMap order (insert moves an existing entry "
                "to the back), petgraph adjacency order, rhai on the matcher fragment; adapters are modelled at the level of parsed lines (the CSV text level is "
                "C16/C09-text); every modelled function body is pinned by hash to the source it was aligned with")
@@ -265,6 +265,7 @@ PROPS.update({
     },
     "C13": {
         "coq": "Properties/C13.v",
+        "coq_extra": ["Properties/QueryGen.v"],
         "pinchecks": ENGINE_PINS,
         "gen": "c13",
         "level_text": "Coq theorems in RBAC scope (plain and domain variant): implicit roles = transitive closure (fuel adequacy proved), implicit permissions = rules "
